@@ -6,9 +6,16 @@ package main
 //             non-zero exactly when a file has a syntax error, in all six modes alike;
 //   flags   - rule overrides from .falco.yml together with further command line options
 //             (`--generated` behind the file name, `-I`, a config in a parent directory):
-//             effective counts and exit status are the constructed ones in every mode.
+//             effective counts and exit status are the constructed ones in every mode;
+//   repeats - the same diagnostic more than once (a statement module included from several
+//             subroutines): the counts are the same in all six modes;
+//   terraform - `falco terraform` with a plan of two or three services, every assignment of
+//             {clean, lint error, syntax error} to them: the exit status is non-zero exactly
+//             when one of the services is not clean, in all six modes.
 
 import (
+	"bytes"
+	"encoding/json"
 	"fmt"
 	"os"
 	"path/filepath"
@@ -25,6 +32,8 @@ type xcase struct {
 func genExtra(g *fw.GenCtx) {
 	g.Emit("extra", xcase{Fam: "modules"})
 	g.Emit("extra", xcase{Fam: "flags"})
+	g.Emit("extra", xcase{Fam: "repeats"})
+	g.Emit("extra", xcase{Fam: "terraform"})
 }
 
 func xdir(files map[string]string) (string, func(), error) {
@@ -50,6 +59,13 @@ func runModes(oc *fw.Outcome, key, what string, files map[string]string, tailArg
 		return
 	}
 	defer cleanup()
+	var seen []string // counts per mode
+	distinct := map[counts]bool{}
+	defer func() {
+		if len(distinct) > 1 {
+			oc.Violate("count-modes:"+key, "the reported counts depend on the output mode / verbosity: "+strings.Join(seen, "; ")+": "+what, map[string]any{"files": files, "args": tailArgs})
+		}
+	}()
 	for _, fs := range flagSets {
 		args := append([]string{"lint"}, fs.Args...)
 		args = append(args, tailArgs...)
@@ -60,6 +76,10 @@ func runModes(oc *fw.Outcome, key, what string, files map[string]string, tailArg
 		if rr.timedOut || rr.signal != "" || strings.Contains(string(rr.stderr), "panic: ") {
 			oc.Violate("extra:crash/"+key+"/"+fs.Name, "falco lint crashed or hung: "+what, detail)
 			continue
+		}
+		if o.has {
+			distinct[o.c] = true
+			seen = append(seen, fs.Name+" ("+o.c.String()+")")
 		}
 		if o.failed != wantFail {
 			oc.Violate("exit:"+fs.Name+"/"+key, fmt.Sprintf("falco lint %s exits %d, expected %s: %s", fs.Name, rr.exit, map[bool]string{true: "non-zero", false: "zero"}[wantFail], what), detail)
@@ -73,7 +93,7 @@ func runModes(oc *fw.Outcome, key, what string, files map[string]string, tailArg
 			oc.Violate("json:"+fs.Name+"/"+key, "stdout is not one JSON document: "+o.jsonErr, detail)
 			continue
 		}
-		oc.Tag("extra:" + key + "/" + fs.Name)
+		oc.Tag("extra:" + strings.SplitN(key, "/", 2)[0] + "/" + fs.Name)
 		oc.NonTrivialS(key + what + fs.Name)
 	}
 }
@@ -126,6 +146,40 @@ func runExtra(oc *fw.Outcome, xc xcase) {
 			"stm_ok.vcl":  "set req.http.B = \"2\";\n",
 		}
 		runModes(oc, "modules/statement-module-broken", "a broken statement module inside a subroutine, a fine one follows", files, []string{"main.vcl"}, true, nil, "")
+	case "repeats":
+		warnInfo := "if (req.url ~ \"\\.(jpg|png)$\") {\n  set req.http.X-Static = \"1\";\n}\nset req.http.X-Restarts = \"n=\" + req.restarts;\n"
+		infoOnly := "set req.http.X-Restarts = \"n=\" + req.restarts;\n"
+		withErr := warnInfo + "set req.http.X-Bad = undefined_variable;\n"
+		mainOf := func(subs ...string) string {
+			var sb strings.Builder
+			for _, s := range subs {
+				n := strings.Count(s, "+") + 1
+				name := strings.TrimRight(s, "+")
+				fmt.Fprintf(&sb, "sub vcl_%s {\n  #FASTLY %s\n%s}\n", name, strings.ToUpper(name), strings.Repeat("  include \"shared\";\n", n))
+			}
+			return sb.String()
+		}
+		for _, c := range []struct {
+			name, shared string
+			subs         []string
+			fail         bool
+		}{
+			{"warning+info/2-subs", warnInfo, []string{"recv", "deliver"}, false},
+			{"warning+info/3-subs", warnInfo, []string{"recv", "deliver", "miss"}, false},
+			{"warning+info/twice-in-one-sub", warnInfo, []string{"recv+"}, false},
+			{"info/2-subs", infoOnly, []string{"recv", "deliver"}, false},
+			{"info/4-times", infoOnly, []string{"recv+", "fetch+"}, false},
+			{"error+warning+info/2-subs", withErr, []string{"recv", "deliver"}, true},
+			{"warning+info/once", warnInfo, []string{"recv"}, false},
+		} {
+			files := map[string]string{"main.vcl": mainOf(c.subs...), "shared.vcl": c.shared}
+			runModes(oc, "repeats/"+c.name, "a statement module with diagnostics included in "+strings.Join(c.subs, ","), files, []string{"main.vcl"}, c.fail, nil, "")
+			// the same with one of the rules lowered / raised by the configuration
+			files[".falco.yml"] = "linter:\n  rules:\n    regex/matched-value-override: INFO\n    operator/concatenation: WARNING\n"
+			runModes(oc, "repeats+override/"+c.name, "a statement module with diagnostics included in "+strings.Join(c.subs, ",")+", rule overrides", files, []string{"main.vcl"}, c.fail, nil, "")
+		}
+	case "terraform":
+		runTerraform(oc)
 	case "flags":
 		gen := "table unused_table {\n  \"a\": \"b\",\n}\nsub vcl_recv {\n  set req.http.X-Foo = \"bar\";\n  return(lookup);\n}\n"
 		for _, sev := range []struct {
@@ -149,6 +203,83 @@ func runExtra(oc *fw.Outcome, xc xcase) {
 			runModes(oc, "flags/include-path+override:"+sev.name, "`lint -I lib FILE` with unused/declaration: "+sev.name,
 				map[string]string{"main.vcl": "include \"shared\";\n" + strings.Replace(gen, "  set req.http", "  #FASTLY RECV\n  call shared_sub;\n  set req.http", 1), "lib/shared.vcl": "sub shared_sub {\n  set req.http.S = \"1\";\n}\n", ".falco.yml": yml},
 				[]string{"-I", "lib", "main.vcl"}, sev.fail, &w3, "")
+		}
+	}
+}
+
+const tfProvider = "registry.terraform.io/fastly/fastly"
+
+var tfBodies = map[string]string{
+	"clean":  "sub vcl_recv {\n  #FASTLY recv\n  set req.http.X-Ok = \"1\";\n  return (lookup);\n}\n",
+	"error":  "sub vcl_recv {\n  #FASTLY recv\n  set req.http.X-Bad = undefined_variable;\n  return (lookup);\n}\n",
+	"syntax": "sub vcl_recv {\n  #FASTLY recv\n  set req.http.X-Bad = \"1\"\n  return (lookup);\n}\n",
+	"warn":   "sub vcl_recv {\n  set req.http.X-Ok = \"1\";\n  return (lookup);\n}\n", // no boilerplate macro: a warning
+}
+
+func tfPlan(kinds []string) []byte {
+	type m = map[string]any
+	var resources []m
+	for i, k := range kinds {
+		id := fmt.Sprintf("id-%c", 'a'+i)
+		svc := m{"id": id, "name": fmt.Sprintf("svc-%c", 'a'+i), "acl": []m{}, "dictionary": []m{}, "backend": []m{}, "director": []m{}, "condition": []m{}, "header": []m{}, "response_object": []m{}, "snippet": []m{},
+			"vcl": []m{{"name": "main", "main": true, "content": tfBodies[k]}}}
+		resources = append(resources, m{"provider_name": tfProvider, "type": "fastly_service_vcl", "values": svc})
+	}
+	b, _ := json.Marshal(m{"planned_values": m{"root_module": m{"resources": resources}}})
+	return b
+}
+
+func runTerraform(oc *fw.Outcome) {
+	kindsOf := []string{"clean", "error", "syntax", "warn"}
+	var plans [][]string
+	for _, a := range kindsOf {
+		for _, b := range kindsOf {
+			plans = append(plans, []string{a, b})
+			for _, c := range kindsOf {
+				plans = append(plans, []string{a, b, c})
+			}
+		}
+	}
+	dir, cleanup, err := xdir(map[string]string{})
+	if err != nil {
+		oc.Inconc = append(oc.Inconc, "workspace: "+err.Error())
+		return
+	}
+	defer cleanup()
+	for _, kinds := range plans {
+		wantFail := false
+		for _, k := range kinds {
+			if k == "error" || k == "syntax" {
+				wantFail = true
+			}
+		}
+		shape := strings.Join(kinds, ",")
+		// key: which position holds the last not-clean service
+		pos := "none"
+		for i, k := range kinds {
+			if k == "error" || k == "syntax" {
+				pos = fmt.Sprintf("%s-at-%d-of-%d", k, i+1, len(kinds))
+			}
+		}
+		for _, fs := range flagSets {
+			args := append([]string{"terraform"}, fs.Args...)
+			rr := runCLIStdin(dir, args, tfPlan(kinds), 60*time.Second)
+			oc.Evals++
+			detail := map[string]any{"services": kinds, "args": args, "exit": rr.exit, "stderr": clip(string(rr.stderr), 1500), "stdout": clip(string(rr.stdout), 1500)}
+			if rr.timedOut || rr.signal != "" || strings.Contains(string(rr.stderr), "panic: ") {
+				oc.Violate("extra:crash/terraform/"+fs.Name, "falco terraform crashed or hung on services "+shape, detail)
+				continue
+			}
+			if !bytes.Contains(rr.stderr, []byte("Lint service of")) && !bytes.Contains(rr.stdout, []byte("Lint service of")) {
+				oc.Inconc = append(oc.Inconc, "falco terraform did not lint any service: "+clip(string(rr.stderr), 300))
+				continue
+			}
+			if (rr.exit != 0) != wantFail {
+				oc.Violate("exit:"+fs.Name+"/terraform/last-bad="+pos, fmt.Sprintf("falco terraform %s exits %d on services (%s), expected %s", fs.Name, rr.exit, shape, map[bool]string{true: "non-zero", false: "zero"}[wantFail]), detail)
+				continue
+			}
+			oc.Tag("extra:terraform/" + fs.Name)
+			oc.NonTrivialS("terraform" + shape + fs.Name)
 		}
 	}
 }
